@@ -509,7 +509,7 @@ def ed_container(rng, seed_pk):
         try:
             enc = Cipher(ci["class"](key[:ci["key-size"]]), ci["mode"](key[ci["key-size"]:])).encryptor()
             ct = enc.update(p2) + enc.finalize()
-        except ValueError:
+        except Exception:   # noqa: whatever the library refuses here, the container just carries plaintext
             ct = p2
     pubs = b"".join(sstr(sstr(name) + sstr(pub_listed)) for _ in range(min(nkeys, 3)))
     data = MAGIC + sstr(cipher) + sstr(kdf) + sstr(kdfopts) + struct.pack(">I", nkeys) + pubs + sstr(ct)
@@ -534,6 +534,8 @@ def ed_decrypt_oracle(fields, password):
         return (0, list(d.update(fields["ct"]) + d.finalize()))
     except (ValueError, KeyError):
         return (1, [])
+    except Exception as e:   # noqa: a library exception kind the model's oracle hypothesis excludes (DOther)
+        return (50, [])
 
 
 def seed_table(private_data):
@@ -724,6 +726,96 @@ def mutate(rng, raw, others):
     return lab, bytes(b)
 
 
+def _armour(data, tag="OPENSSH"):
+    return ("-----BEGIN %s PRIVATE KEY-----\n" % tag + base64.encodebytes(data).decode() +
+            "-----END %s PRIVATE KEY-----\n" % tag).encode()
+
+
+def _body(raw):
+    lines = raw.decode("latin1").split("\n")
+    return base64.b64decode("".join(l for l in lines if l and not l.startswith("-----") and ": " not in l))
+
+
+def _split_container(data):
+    """openssh-key-v1 container -> (cipher, kdf, kdfopts, nkeys, pubs, blob) or None"""
+    if data[:15] != MAGIC:
+        return None
+    pos = 15
+    out = []
+    try:
+        for kind in "sssu":
+            if kind == "u":
+                out.append(struct.unpack(">I", data[pos:pos + 4])[0])
+                pos += 4
+            else:
+                n = struct.unpack(">I", data[pos:pos + 4])[0]
+                out.append(data[pos + 4:pos + 4 + n])
+                pos += 4 + n
+        pubs = []
+        for _ in range(min(out[3], 4)):
+            n = struct.unpack(">I", data[pos:pos + 4])[0]
+            pubs.append(data[pos + 4:pos + 4 + n])
+            pos += 4 + n
+        n = struct.unpack(">I", data[pos:pos + 4])[0]
+        blob = data[pos + 4:pos + 4 + n]
+    except struct.error:
+        return None
+    return out[0], out[1], out[2], out[3], pubs, blob
+
+
+def _join_container(cipher, kdf, kdfopts, nkeys, pubs, blob):
+    return MAGIC + sstr(cipher) + sstr(kdf) + sstr(kdfopts) + struct.pack(">I", nkeys) + b"".join(sstr(p) for p in pubs) + sstr(blob)
+
+
+def field_mutations(raw):
+    """Field-aware edits of an UNENCRYPTED openssh-key-v1 file: every length-prefixed field of the private section
+    (key type, numbers / points / seeds, comment) gets its sign / top bit set, its leading byte dropped, a 0xff or 0x80
+    byte put in front, emptied, replaced by 0 / 1 / 0x80 / 0xff, and its length field made to lie - the boundary values a
+    signed / unsigned integer reader treats specially.  Yields (label, file bytes)."""
+    c = _split_container(_body(raw))
+    if c is None or c[0] != b"none":
+        return
+    cipher, kdf, kdfopts, nkeys, pubs, blob = c
+    head, pos, fields = blob[:8], 8, []
+    while pos + 4 <= len(blob):
+        n = struct.unpack(">I", blob[pos:pos + 4])[0]
+        if pos + 4 + n > len(blob):
+            break
+        fields.append(blob[pos + 4:pos + 4 + n])
+        pos += 4 + n
+    for i, f in enumerate(fields):
+        variants = [("empty", b""), ("zero", b"\x00"), ("one", b"\x01"), ("0x80", b"\x80"), ("0xff", b"\xff"),
+                    ("prefix-ff", b"\xff" + f), ("prefix-80", b"\x80" + f), ("prefix-00", b"\x00" + f)]
+        if f:
+            variants += [("top-bit-set", bytes([f[0] | 0x80]) + f[1:]), ("top-bit-flipped", bytes([f[0] ^ 0x80]) + f[1:]),
+                         ("first-byte-dropped", f[1:]), ("first-byte-80", b"\x80" + f[1:]), ("last-bit", f[:-1] + bytes([f[-1] ^ 1]))]
+        for lab, v in variants:
+            fs = fields[:i] + [v] + fields[i + 1:]
+            yield "field%d-%s" % (i, lab), _armour(_join_container(cipher, kdf, kdfopts, nkeys, pubs,
+                                                                   pad_to(head + b"".join(sstr(x) for x in fs), 8)))
+        # lying length
+        for lab, n2 in (("len+1", len(f) + 1), ("len-1", max(len(f) - 1, 0)), ("len-huge", 0xFFFFFFFF)):
+            parts = [sstr(x) for x in fields]
+            parts[i] = struct.pack(">I", n2) + f
+            yield "field%d-%s" % (i, lab), _armour(_join_container(cipher, kdf, kdfopts, nkeys, pubs, pad_to(head + b"".join(parts), 8)))
+
+
+def cipher_name_grid(raw):
+    """Every cipher the Transport table knows (incl. the AEAD ones), 'none' and an unknown name spliced into the
+    cipher-name field of a passphrase-protected openssh-key-v1 file; also every kdf name.  Yields (label, bytes)."""
+    from paramiko.transport import Transport
+    c = _split_container(_body(raw))
+    if c is None:
+        return
+    cipher, kdf, kdfopts, nkeys, pubs, blob = c
+    for name in sorted(Transport._cipher_info) + ["none", "aes256-gcm", "chacha20-poly1305@openssh.com", "AES256-CTR", ""]:
+        if name.encode() != cipher:
+            yield "cipher-name:" + name, _armour(_join_container(name.encode(), kdf, kdfopts, nkeys, pubs, blob))
+    for k2 in (b"none", b"bcrypt", b"scrypt", b""):
+        if k2 != kdf:
+            yield "kdf-name:" + k2.decode(), _armour(_join_container(cipher, k2, kdfopts, nkeys, pubs, blob))
+
+
 def load_file(clsname, path, password):
     import paramiko
     return getattr(paramiko, clsname).from_private_key_file(path, password)
@@ -786,6 +878,25 @@ def oracle_files(ctx, n):
                 for p in ([None] if pw is None else [pw, None, "wrong", ""]):
                     r = judge_load(ctx, c, label, "original", raw, p, path)
                     ctx.count(("orig", label, c, p), kind="original:" + r)
+        # field-aware edits of unencrypted OpenSSH-format files, and the cipher / kdf name grid on protected ones
+        for label, raw, pw in files:
+            if b"OPENSSH PRIVATE KEY" not in raw:
+                continue
+            struct_muts = list(field_mutations(raw)) if pw is None else []
+            if not ctx.thorough and len(struct_muts) > 70:
+                keep = [m for m in struct_muts if "top-bit" in m[0] or "first-byte" in m[0]]
+                rest = [m for m in struct_muts if m not in keep]
+                rng.shuffle(rest)
+                struct_muts = keep + rest[:70 - len(keep)]
+            grid = list(cipher_name_grid(raw))
+            for mlabel, content in struct_muts + grid:
+                ll = label.lower()
+                native = "RSAKey" if "rsa" in ll else "Ed25519Key" if "ed25519" in ll else "ECDSAKey" if "ec" in ll else "Ed25519Key"
+                for c in ([native] if mlabel.startswith("field") else CLS):
+                    for p in ([None] if pw is None else [pw, "wrong"]):
+                        r = judge_load(ctx, c, label, mlabel, content, p, path)
+                        hist[r] = hist.get(r, 0) + 1
+                        ctx.count(("struct", c, content, p), kind="structured-%s:%s" % (mlabel.split(":")[0].split("-", 1)[-1][:14], r))
         for _ in range(n):
             label, raw, pw = files[rng.randrange(len(files))]
             mlabel, content = mutate(rng, raw, raws)
@@ -829,7 +940,7 @@ def run(ctx):
                 "numbers incl. p = 1.  Oracle: every bundled and fresh key file (PEM, encrypted PEM, OpenSSH; RSA, ECDSA "
                 "256/384/521, Ed25519) under every class and password none / right / wrong / empty, then byte mutations (flip, "
                 "delete, truncate, splice from another file, line delete / duplicate, decoded-body byte / length-field / "
-                "truncation edits, armour swap, insertion incl. invalid UTF-8) through from_private_key_file.  Non-trivial = distinct and mutated")
+                "truncation edits, armour swap, insertion incl. invalid UTF-8), field-aware edits of every length-prefixed field of unencrypted OpenSSH private sections (top bit set / flipped, first byte dropped, 0x80 / 0xff / 0x00 prefixes, empty, 0, 1, lying lengths) and every Transport._cipher_info name (incl. AEAD) / kdf name spliced into protected OpenSSH files, through from_private_key_file.  Non-trivial = distinct and mutated")
     ctx.trusted += ["base64 / UTF-8 / bcrypt / cryptography / nacl outcomes are oracle inputs taken from the real libraries",
                     "the harness replicates the library calls (bcrypt.kdf + Cipher) to obtain decrypt outcomes for containers it built"]
     ctx.assumptions += ["C37_only_sshexc assumes the decrypt / DER oracles raise only the ValueError family (observed kinds are checked by the oracle run)",
